@@ -289,11 +289,11 @@ def _worker(c):
 def run(rec, tier, seed):
     quick = tier == 'quick'
     etas = [0.05, 0.15, 0.25, 0.35, 0.45] if quick else [0.025 * i for i in range(1, 20)]
-    cases = [{'kind': 'wt', 'eta': e, 'levels': 6} for e in etas]
+    cases = [{'kind': 'wt', 'eta': e, 'levels': 6 if quick else 7} for e in etas]
     pots = list(POTS)
     clos = ['PY', 'HNC', 'MSAhc']
     kTs = [0.5, 3.0] if quick else [0.5, 0.7, 1.0, 1.5, 3.0]
-    drs = [0.1] if quick else [0.1, 0.05, 0.025]
+    drs = [0.1] if quick else [0.1, 0.05, 0.025, 0.0125]
     for p, cl, kT, dr in itertools.product(pots, clos, kTs, drs):
         if cl == 'MSAhc' and p == 'LJ':
             continue            # (MSA with the flag on the soft WCA potential is included: 1 - u/kT goes negative next to the core)
